@@ -257,6 +257,8 @@ def run(ctx):
                          % (idx, json.dumps(cases[s + idx[0]][3])[:600])))
         else:
             corr.append(("resume-run:" + name, True, ""))
+    import kernel_tie
+    corr.append(kernel_tie.obligation())
     rule = ("random tie-rich rulesets (as C01, <= %d pre-terminals); for EVERY cut k the state a real PcfgQueue saves after "
             "its (k+1)-th pop is restored by a new PcfgQueue and run to exhaustion; oracle against the uninterrupted run for "
             "every k; plus two-cycle histories and the uuid refusal through the CLI; non-trivial = the saved probability is "
